@@ -70,8 +70,10 @@ var c17TransportErrs = map[string]error{
 
 func (s *c17Stub) RoundTrip(r *http.Request) (*http.Response, error) {
 	c := c17Captured{method: r.Method, url: r.URL.String(), header: r.Header.Clone(), hdrPtr: reflect.ValueOf(r.Header).Pointer()}
+	var bodyErr error
 	if r.Body != nil {
-		b, _ := io.ReadAll(r.Body)
+		var b []byte
+		b, bodyErr = io.ReadAll(r.Body)
 		c.body = b
 		c.hasBody = true
 	}
@@ -82,6 +84,10 @@ func (s *c17Stub) RoundTrip(r *http.Request) (*http.Response, error) {
 	fault := s.fault
 	nth := len(s.reqs)
 	s.mu.Unlock()
+	if bodyErr != nil {
+		// like a real transport: the request body could not be read completely, the round trip fails with that error
+		return nil, bodyErr
+	}
 	if fault == "transport" {
 		return nil, errC17Transport
 	}
@@ -119,6 +125,10 @@ func (c17ErrStringer) String() string { return "as-stringer" }
 type c17ValStringer struct{}
 
 func (c17ValStringer) String() string { return "val" }
+
+type c17ErrReader struct{ err error }
+
+func (r c17ErrReader) Read([]byte) (int, error) { return 0, r.err }
 
 type c17Target struct {
 	V int
@@ -213,15 +223,22 @@ func (e *c17Env) runCase(cs c17Case, realServer *httptest.Server) {
 	case "deserializer-nil":
 		api.ResponseDeserializer = func(b []byte, target interface{}) (interface{}, error) { return nil, desErr }
 	}
+	streamErr := errors.New("stub: the serializer's reader failed half way")
 	customSer := func(body interface{}) (io.Reader, error) {
 		if cs.fault == "serializer" {
 			return nil, serErr
+		}
+		if cs.fault == "serializer-stream" {
+			return io.MultiReader(strings.NewReader("partial:"), c17ErrReader{streamErr}), nil
 		}
 		return strings.NewReader(fmt.Sprintf("custom:%v", body)), nil
 	}
 	customMulti := func(body *network.MultipartForm) (io.Reader, string, error) {
 		if cs.fault == "serializer" {
 			return nil, "", serErr
+		}
+		if cs.fault == "serializer-stream" {
+			return io.MultiReader(strings.NewReader("--partial"), c17ErrReader{streamErr}), "multipart/form-data; boundary=partial", nil
 		}
 		return network.GeneralMultipartSerializer(body)
 	}
@@ -327,6 +344,13 @@ func (e *c17Env) runCase(cs c17Case, realServer *httptest.Server) {
 		if expURLErr != nil {
 			if resp.Err == nil {
 				e.viol("url:unparsable-accepted", cs, "URL %q does not parse but Err is nil", expectedRaw)
+			}
+			continue
+		}
+		if cs.fault == "serializer-stream" && hasBody && (cs.cons == 9 || cs.cons == 10) {
+			// the custom serializer's reader fails while the body is being consumed: the evaluation yields Err
+			if resp.Err == nil || !errors.Is(resp.Err, streamErr) {
+				e.viol("fault:serializer-stream-error-not-surfaced", cs, "the reader returned by the custom serializer failed half way (after 8 bytes) but Err=%v", resp.Err)
 			}
 			continue
 		}
@@ -633,16 +657,18 @@ func runC17(c *core.Ctx) {
 	os.WriteFile(tmp, []byte("file-content-\x00-bytes"), 0o644)
 	defer os.Remove(tmp)
 	e := &c17Env{c: c, tmpFile: tmp}
-	templates := []string{"", "users", "users/{id}", "{a}/{b}", "{a}{b}", "{a}/x/{a}", "{a}/{b}/{c}/{d}", "x/{missing}/y"}
+	templates := []string{"", "users", "users/{id}", "{a}/{b}", "{a}{b}", "{a}/x/{a}", "{a}/{b}/{c}/{d}", "x/{missing}/y",
+		// literal braces around and before placeholders
+		"posts/{{id}}", "tpl/{raw/{a}", `f/{"o":{id}}/{a}`, "}{a}{"}
 	params := []network.PathParam{nil, {}, {"id": 5}, {"a": "x", "b": "y"}, {"a": 1, "b": 2, "c": 3, "d": 4}, {"a": "sp ace", "b": "ü"}, {"extra": "e", "a": "A"}, {"a": "v/1", "b": true, "id": "q?x=1"}, {"a": "%zz"},
 		// values formatted by their own methods: the URL carries what fmt's %v prints (Error() wins over String(), a typed
 		// nil pointer prints <nil>)
 		{"a": c17ErrStringer{}, "b": (*c17ValStringer)(nil), "id": time.Duration(1500) * time.Millisecond}, {"a": uint64(math.MaxUint64), "b": int8(-8), "c": 1.50, "d": 'x', "id": c17ValStringer{}}}
-	faults := []string{"", "serializer", "transport", "nonjson", "readfail", "deserializer-target", "deserializer-nil"}
+	faults := []string{"", "serializer", "transport", "nonjson", "readfail", "deserializer-target", "deserializer-nil", "serializer-stream"}
 	for k := range c17TransportErrs {
 		faults = append(faults, "transport-once:"+k)
 	}
-	sort.Strings(faults[7:])
+	sort.Strings(faults[8:])
 	var cases []c17Case
 	for cons := 0; cons < len(c17ConsNames); cons++ {
 		for _, t := range templates {
@@ -693,7 +719,7 @@ func init() {
 		Meta: func(c *core.Ctx) core.Meta {
 			return core.Meta{
 				Level: "fault_enumeration",
-				Rule: "11 constructors x 8 relative templates (0..4 placeholders, repeated and adjacent) x 11 PathParam maps (nil, empty, missing, extra, 1..4 keys, spaces, unicode, slash, '?', unparsable escape, values with Error()/String() methods, typed nil pointers, extreme numbers) x 4 bodies x 3 DefaultHeader sets x 15 injected outcomes (none, serializer error, transport error, a first round trip failing with EOF / unexpected EOF / ECONNRESET / EPIPE / ECONNREFUSED / net.OpError / wrapped EOF / deadline while a second one would succeed, non-JSON body, unreadable body, deserializer (target,err), deserializer (nil,err)); thorough = full product, quick = full over constructor x template x params x fault with bodies/headers rotated. " +
+				Rule: "11 constructors x 12 relative templates (0..4 placeholders, repeated and adjacent, literal braces before / around placeholders) x 11 PathParam maps (nil, empty, missing, extra, 1..4 keys, spaces, unicode, slash, '?', unparsable escape, values with Error()/String() methods, typed nil pointers, extreme numbers) x 4 bodies x 3 DefaultHeader sets x 16 injected outcomes (none, serializer error, a custom serializer whose reader fails half way, transport error, a first round trip failing with EOF / unexpected EOF / ECONNRESET / EPIPE / ECONNREFUSED / net.OpError / wrapped EOF / deadline while a second one would succeed, non-JSON body, unreadable body, deserializer (target,err), deserializer (nil,err)); thorough = full product, quick = full over constructor x template x params x fault with bodies/headers rotated. " +
 					"A stub RoundTripper under SimpleHTTP captures method, URL, header map (identity + content) and body; each case: nothing before Eval, exactly one request per Eval (x2), expected method/URL/headers/body, target decoded, failures surface as Err without panic; a subset also through the real transport against a loopback server, plus response bodies of 0 B .. 4 MiB through the real transport, plus body TYPES other than pointers (slices, maps: nil / empty / filled; zero struct, empty string, 0) with the JSON serializer's output as oracle and a counting custom serializer. distinct_nontrivial = enumerated cases (distinct by construction)",
 				Assumptions: []string{"expected URL = BaseURL + '/' + template with every supplied {key} replaced by fmt.Sprint(value); values contain no braces; if that string does not parse as a URL the evaluation must yield Err",
 					"expected headers = DefaultHeader values + the declared Content-Type appended; the stub sees the request before net/http's real transport adds its own headers"},
